@@ -1,6 +1,172 @@
 import Infretis.Model.Proto
-open Infretis.Proto
+import Infretis.Model.Store
+open Infretis Infretis.Proto Infretis.Store
 
-def handle (_toks : List String) : String := "bad-op"
+/-! Line protocol of the C14 driver.
+
+  store <step> <list hexstr move-words> <nframes> { <hex dir> <hex base> <idx|-> <velrev 0|1> <list int order> <vpot|-> <ekin|-> }*
+      → "T <lines> | O <lines> | E <lines> | A <names> | L <loaded>"
+  load  <list hexstr files> <file> <file> <file>     file = "-" (absent) or <nlines> { <ntoks> tok* }*
+      tok = h | w<hex> | i<int> | f<int> | n
+      → "<loaded>"
+  hist  <n> <delOld> <delAll> <ninit> { <pn> <list name> }* <nops> { R <pnOld> <list name> <list name> | F }*
+      → one state per op, separated by " | "
+-/
+
+def showErr : Err → String
+  | .assert => "err:assert" | .stopIteration => "err:stop" | .index => "err:index" | .value => "err:value"
+  | .key => "err:key" | .nofile => "err:nofile" | .notempty => "err:os"
+
+def showLine (l : Line) : String := " ".intercalate (l.map Tok.render)
+def showLines (ls : List Line) : String := " ; ".intercalate (ls.map showLine)
+
+def showNum : Num → String
+  | .val v => toString v
+  | .nan => "nan"
+
+def showONum : Option Num → String
+  | some x => showNum x
+  | none => "-"
+
+def showLFrame (f : LFrame) : String :=
+  s!"{f.base},{f.idx},{if f.velRev then 1 else 0},{":".intercalate (f.order.map showNum)},{showONum f.vpot},{showONum f.ekin}"
+
+def showLoaded : Except Err (List LFrame) → String
+  | .ok fs => " ".intercalate (toString fs.length :: fs.map showLFrame)
+  | .error e => showErr e
+
+def optInt (s : String) : Option (Option Int) :=
+  if s = "-" then some none else (parseInt? s).map some
+
+def takeFrames : Nat → List String → Option (List Frame × List String)
+  | 0, rest => some ([], rest)
+  | k + 1, d :: b :: ix :: vr :: rest =>
+    match unhexStr d, unhexStr b, optInt ix, takeList parseInt? rest with
+    | some d, some b, some ix, some (ord, vp :: ek :: rest) =>
+      match optInt vp, optInt ek, takeFrames k rest with
+      | some vp, some ek, some (fs, rest) =>
+        some ({ dir := d, base := b, idx := ix, velRev := vr = "1", order := ord, vpot := vp, ekin := ek } :: fs, rest)
+      | _, _, _ => none
+    | _, _, _, _ => none
+  | _, _ => none
+
+def parseTok (s : String) : Option Tok :=
+  match s.toList with
+  | ['h'] => some .hash
+  | ['n'] => some .nan
+  | 'w' :: r => (unhexStr (String.ofList r)).map Tok.word
+  | 'i' :: r => (parseInt? (String.ofList r)).map Tok.int
+  | 'f' :: r => (parseInt? (String.ofList r)).map Tok.fix6
+  | _ => none
+
+def takeLines : Nat → List String → Option (List Line × List String)
+  | 0, rest => some ([], rest)
+  | k + 1, rest =>
+    match takeList parseTok rest with
+    | some (l, rest) =>
+      match takeLines k rest with
+      | some (ls, rest) => some (l :: ls, rest)
+      | none => none
+    | none => none
+
+def takeFile : List String → Option (Option (List Line) × List String)
+  | "-" :: rest => some (none, rest)
+  | n :: rest =>
+    match parseNat? n with
+    | some k => (takeLines k rest).map (fun (ls, r) => (some ls, r))
+    | none => none
+  | [] => none
+
+def some' (s : String) : Option String := some s
+
+def takeInit : Nat → List String → Option (List (Nat × List String) × List String)
+  | 0, rest => some ([], rest)
+  | k + 1, pn :: rest =>
+    match parseNat? pn, takeList some' rest with
+    | some pn, some (names, rest) =>
+      match takeInit k rest with
+      | some (ps, rest) => some ((pn, names) :: ps, rest)
+      | none => none
+    | _, _ => none
+  | _, _ => none
+
+def takeOps : Nat → List String → Option (List Op × List String)
+  | 0, rest => some ([], rest)
+  | k + 1, "F" :: rest => (takeOps k rest).map (fun (os, r) => (Op.finish :: os, r))
+  | k + 1, "R" :: p :: rest =>
+    match parseNat? p, takeList some' rest with
+    | some p, some (files, rest) =>
+      match takeList some' rest with
+      | some (kept, rest) => (takeOps k rest).map (fun (os, r) => (Op.replace p files kept :: os, r))
+      | none => none
+    | _, _ => none
+  | _, _ => none
+
+def txtName : Nat → String
+  | 0 => "order.txt" | 1 => "traj.txt" | _ => "energy.txt"
+
+def showFile : DFile → String
+  | .txt p k => s!"{p}/{txtName k}"
+  | .acc p nm => s!"{p}/accepted/{nm}"
+
+def showDir : DDir → String
+  | .path p => s!"{p}/"
+  | .accepted p => s!"{p}/accepted/"
+
+def showNats (l : List Nat) : String := ",".intercalate (l.map toString)
+
+def showSt (s : St) (e : Option Err) : String :=
+  let es := match e with | none => "ok" | some e => showErr e
+  s!"{es} live:{showNats s.live} olds:{showNats (s.pnOlds.map (·.1))} restart:{showNats s.restart} disk:{",".intercalate ((s.disk.map showFile) ++ (s.dirs.map showDir)).eraseDups}"
+
+/-- states after each op; stops after the first error -/
+def trace : St → List Op → List String
+  | _, [] => []
+  | s, op :: ops =>
+    match step s op with
+    | (s', none) => showSt s' none :: trace s' ops
+    | (s', some e) => [showSt s' (some e)]
+
+def handle (toks : List String) : String :=
+  match toks with
+  | "store" :: st :: rest =>
+    match parseNat? st, takeList unhexStr rest with
+    | some st, some (mv, nf :: rest) =>
+      match parseNat? nf with
+      | some nf =>
+        match takeFrames nf rest with
+        | some (fs, []) =>
+          let s := store st mv fs
+          s!"T {showLines s.traj} | O {showLines s.order} | E {showLines s.energy} | A {" ".intercalate s.accepted} | L {showLoaded (loadStored s)}"
+        | _ => "bad-op"
+      | none => "bad-op"
+    | _, _ => "bad-op"
+  | "load" :: rest =>
+    match takeList unhexStr rest with
+    | some (files, rest) =>
+      match takeFile rest with
+      | some (t, rest) =>
+        match takeFile rest with
+        | some (o, rest) =>
+          match takeFile rest with
+          | some (e, []) => showLoaded (load t o e files)
+          | _ => "bad-op"
+        | none => "bad-op"
+      | none => "bad-op"
+    | none => "bad-op"
+  | "hist" :: n :: d1 :: d2 :: ni :: rest =>
+    match parseNat? n, parseNat? ni with
+    | some n, some ni =>
+      match takeInit ni rest with
+      | some (paths, no :: rest) =>
+        match parseNat? no with
+        | some no =>
+          match takeOps no rest with
+          | some (ops, []) => " | ".intercalate (trace (init n (d1 = "1") (d2 = "1") paths) ops)
+          | _ => "bad-op"
+        | none => "bad-op"
+      | _ => "bad-op"
+    | _, _ => "bad-op"
+  | _ => "bad-op"
 
 def main : IO Unit := mainWith handle
